@@ -768,3 +768,15 @@ package exec
 //@   property C04
 //@   uses values
 //@   ensures r == toBool(VSet(n))
+
+//@ func sum(context, args) (r, err)
+//@   property C06 C13 C15
+//@   uses strval strnum nodeset
+//@   requires okargs(args)
+//@   requires len(args) == 1 && isVSet(args[0]) ==> nodes(vset(args[0]))
+//@   ensures (err != nil) == (len(args) != 1 || !isVSet(args[0]))                             @error-iff-not-nodeset
+//@   ensures err == nil ==> r == VNum(fsum(vset(args[0]), len(vset(args[0]))))                @ieee-sum-of-all-nodes
+//@   loop 0
+//@     invariant 0 - 1 <= #k && #k < len(nodeSet) || (len(nodeSet) == 0 && #k == 0 - 1)
+//@     invariant sum == fsum(nodeSet, #k + 1)
+//@     decreases len(nodeSet) - #k
